@@ -189,6 +189,9 @@ def readback_case(d, w, h, mname, scheme, part, sub=None, stale=False, via="dire
         part.violation("readback/%s%s%s/%s" % (clause, "/over-existing-tiling" if stale else "", "" if via == "direct" else "/via-" + via, mname), "%r: %s" % (cfg, detail), cfg)
 
     arr = make_image(w, h, mname)
+    # "label:<format>": the image object carries another default format than the pyramid it is tiled into (an
+    # image read from a FITS file tiled into a npy pyramid and so on); the pyramid's format decides what is written
+    img_fmt = via[6:] if via.startswith("label:") else fmt
     out = os.path.join(d, "rb_%d_%d_%s_%s" % (w, h, mname.replace("/", "_"), scheme.replace("/", "")))
     pio = PyramidIO(out, scheme=scheme, default_format=fmt)
     try:
@@ -204,7 +207,7 @@ def readback_case(d, w, h, mname, scheme, part, sub=None, stale=False, via="dire
                 else:
                     arr[: max(0, 256 - gy0), : max(0, 256 - gx0)] = 0
             if sub is None:
-                img = Image.from_array(arr.copy(), default_format=fmt)
+                img = Image.from_array(arr.copy(), default_format=img_fmt)
                 if via == "reuse" and mname in NARROWER:
                     n_dt, n_ch, n_fmt = MODES[NARROWER[mname]]
                     tiling = StudyTiling(w, h)
@@ -251,7 +254,7 @@ def readback_case(d, w, h, mname, scheme, part, sub=None, stale=False, via="dire
                 ix, iy, sw, sh = sub
                 tiling = StudyTiling(w, h)
                 st = tiling.compute_for_subimage(ix, iy, sw, sh)
-                simg = Image.from_array(arr[iy : iy + sh, ix : ix + sw].copy(), default_format=fmt)
+                simg = Image.from_array(arr[iy : iy + sh, ix : ix + sw].copy(), default_format=img_fmt)
                 if via == "pickled":
                     # the sub-tiling as a worker process receives it (pickled and restored), also copied
                     import copy
@@ -434,6 +437,11 @@ def run(tier, seed):
     for (w, h) in [(300, 270), (257, 513), (96, 45)]:
         for m in ("RGB/png", "RGBA/png"):
             rb.append((w, h, m, "L/Y/YX", None, False, "pil-flipped"))
+    # image objects labelled with another format than the pyramid's (other row order among them)
+    for (w, h), sb in [((420, 300), None), ((257, 513), None), ((600, 520), (257, 255, 343, 265))]:
+        for m, labels in (("F32/fits", ("npy", "png")), ("F32/npy", ("fits",)), ("I16/npy", ("fits",)), ("U8/fits", ("png",)), ("RGBA/png", ("fits", "npy"))):
+            for lab in labels:
+                rb.append((w, h, m, "L/Y/YX", sb, False, "label:" + lab))
     rb = rng_order(rb, seed)
     n = max(1, len(rb) // 6)
     for i in range(0, len(rb), 6):
